@@ -205,7 +205,12 @@ class Source:
         item_start = ls + (len(self.masked[ls:m.start()]) - len(self.masked[ls:m.start()].lstrip()))
         k = m.end()
         # find first of '{', ';', '(' at depth 0 (skip generics)
-        while k < len(self.masked) and self.masked[k] not in '{;(=':
+        sq = 0
+        while k < len(self.masked) and (sq > 0 or self.masked[k] not in '{;(='):
+            if self.masked[k] == '[':
+                sq += 1
+            elif self.masked[k] == ']':
+                sq -= 1
             k += 1
         if self.masked[k] == '=':
             # const/static/type: ends at ';' at depth 0
